@@ -364,7 +364,7 @@ class ExprGen(Gen):
                                    for k in r.sample(["x", "y", "z"], r.randrange(0, 3))}}
         if t == "SS": return {"SS": r.sample(["x", "y", "xy", "p"], r.randrange(1, 4))}
         if t == "NS": return {"NS": r.sample(["1", "2", "10", "1.5"], r.randrange(1, 4))}
-        return {"BS": r.sample(["x", "xy", "\x01"], r.randrange(1, 3))}
+        return {"BS": r.sample(["x", "xy", "\x01"], r.randrange(1, 4))}
 
     def related_value(self, own):
         """a value of the same type that contains, or is contained in, the given one"""
@@ -380,10 +380,12 @@ class ExprGen(Gen):
             if grow or not v["L"]: v["L"].append(S("extra"))
             else: v["L"].pop()
         elif t in ("SS", "BS"):
-            if grow or len(v[t]) < 2: v[t] = v[t] + ["zz"]
+            if len(v[t]) >= 2 and r.random() < 0.5: v[t] = v[t][::-1]     # the same set, members listed in another order
+            elif grow or len(v[t]) < 2: v[t] = v[t] + ["zz"]
             else: v[t] = v[t][:-1]
         elif t == "NS":
-            if grow or len(v[t]) < 2: v[t] = v[t] + ["77"]
+            if len(v[t]) >= 2 and r.random() < 0.5: v[t] = v[t][::-1]
+            elif grow or len(v[t]) < 2: v[t] = v[t] + ["77"]
             else: v[t] = v[t][:-1]
         elif t in ("S", "B"):
             v[t] = v[t] + "x" if grow or not v[t] else v[t][:-1]
@@ -453,7 +455,8 @@ class ExprGen(Gen):
                 if r.random() < 0.3:
                     pth = self.path(ctx)
                     own = (ctx.get("item") or {}).get(pth)
-                    if own and r.random() < 0.4:
+                    is_multi_set = bool(own) and list(own)[0] in ("SS", "BS", "NS") and len(list(own.values())[0]) >= 2
+                    if own and r.random() < (0.85 if is_multi_set else 0.4):
                         # a value structurally close to the attribute's own: a sub- or super-container of it
                         rel = self.related_value(own)
                         name = ":v%d" % len(ctx["values"]); ctx["values"][name] = rel
@@ -495,6 +498,18 @@ class ExprGen(Gen):
         return "(%s)" % self.cond_expr(ctx, depth - 1)
 
     def match_case(self, depth=3):
+        r = self.r
+        if r.random() < 0.04:
+            # sets are compared as sets: the same members listed in another order, also nested in a list / a map
+            t = r.choice(["SS", "NS", "BS"])
+            pool = {"SS": ["x", "y", "xy", "p"], "NS": ["1", "2", "10", "1.5"], "BS": ["x", "xy", "\x01", "b"]}[t]
+            members = r.sample(pool, r.randrange(2, 4))
+            own, other = {t: members}, {t: members[::-1]}
+            wrap = r.choice(["none", "list", "map"])
+            if wrap == "list": own, other = {"L": [own]}, {"L": [other]}
+            if wrap == "map": own, other = {"M": {"k": own}}, {"M": {"k": other}}
+            e = r.choice(["a = :v", "a <> :v", "a IN (:v, :w)", "NOT a = :v", ":v = a"])
+            return dict(op="match", expr=e, item={"a": own, "b": S("x")}, names={}, values={":v": other, ":w": S("x")})
         ctx = dict(names={}, values={}, item=self.expr_item())
         e = self.cond_expr(ctx, self.r.randrange(0, depth + 1))
         return dict(op="match", expr=e, item=ctx["item"], names=ctx["names"], values=ctx["values"])
